@@ -52,7 +52,10 @@ RULE_ADDED = (
               ' '
               'Round 14: keys given with 0x / 0X prefixes and in upper case, keys with leading '
               'or trailing zero digits: refused, or the signature is by the key the digits deno'
-              'te. ')
+              'te. '
+              ' '
+              'Round 15: `signapp eth` against a simulated Ethereum app, honest and dishonest i'
+              'n five ways; key runs reading the image through a pipe. ')
 RULE = RULE + " " + RULE_ADDED.strip()
 ASSUMPTIONS = [
     "own Keccak-256 (pv/oracle/hashes.py) and OpenSSL verification are the oracles",
@@ -359,6 +362,8 @@ def run_case(acc, cseed, tmpdir):
                                                  dg2):
                 bad("signature-not-made-by-the-key-that-was-given",
                     spelling=spelled[:4] + ".." + spelled[-6:], trailing_zero_bits=z)
+    if rng.random() < 0.3:
+        eth_runs(acc, rng, tmpdir, app2, it2, areas2, bad)
     # manual addition: valid DER accepted, malformed refused and file untouched
     extra = g1.sign(g1.new_key(rng), b"x", rng).hex()
     code, so = run_main(signapp.main, ["signapp.py", "manual", "-o", out, "-g", extra])
@@ -494,6 +499,99 @@ def run_case(acc, cseed, tmpdir):
     if len(acc.samples) < 2:
         acc.sample({"authorization_file": json.load(open(out)), "message": text,
                     "digest": digest.hex()})
+
+class EthApp:
+    """the Ledger Ethereum app as `signapp eth` talks to it (E0 02 public key, E0 08 sign
+    personal message), honest or not: behind the real ledgerblue HID transport"""
+    pending_link = None
+
+    def __init__(self, rng, mode):
+        import ecdsa as _ec
+        self._ec = _ec
+        self.rng = rng
+        self.mode = mode
+        self.key = _ec.SigningKey.from_secret_exponent(
+            rng.getrandbits(255) + 2, curve=_ec.SECP256k1)
+        self.other = _ec.SigningKey.from_secret_exponent(
+            rng.getrandbits(255) + 3, curve=_ec.SECP256k1)
+        self.signed = []
+
+    def note_fault(self, apdu, fault):
+        pass
+
+    def pub(self, k):
+        return b"\x04" + k.get_verifying_key().to_string()
+
+    def exchange(self, apdu):
+        if len(apdu) < 5 or apdu[0] != 0xE0:
+            return b"", 0x6E00
+        if apdu[1] == 0x02:
+            k = self.other if self.mode == "reports-another-key" else self.key
+            p = self.pub(k)
+            addr = b"00" * 20
+            return bytes([len(p)]) + p + bytes([len(addr)]) + addr, 0x9000
+        if apdu[1] == 0x08:
+            npath = apdu[5]
+            body = apdu[6 + 4 * npath:]
+            n = int.from_bytes(body[:4], "big")
+            msg = bytes(body[4:4 + n])
+            self.signed.append(msg)
+            pre = b"\x19Ethereum Signed Message:\n" + str(len(msg)).encode() + msg
+            dg = keccak256(msg if self.mode == "signs-without-the-prefix" else pre)
+            if self.mode == "signs-another-text":
+                dg = keccak256(b"\x19Ethereum Signed Message:\n5hello")
+            k = self.other if self.mode == "signs-with-another-key" else self.key
+            sig = k.sign_digest_deterministic(dg, sigencode=self._ec.util.sigencode_string)
+            r, s_ = sig[:32], sig[32:]
+            if self.mode == "s-altered":
+                s_ = bytes([s_[0] ^ 0x01]) + s_[1:]
+            return bytes([27]) + r + s_, 0x9000
+        return b"", 0x6D00
+
+
+def eth_runs(acc, rng, tmpdir, app2, it2, areas2, bad):
+    """`signapp eth` against a simulated Ethereum app: what it stores is a signature, by the
+    key the app reported, of this authorization's digest - or nothing"""
+    import signapp
+    from ..simdev.transport import Bus, HidPatch, VirtualClock
+    h2 = ihex.expected_hash(areas2).hex()
+    t2 = "RSK_powHSM_signer_%s_iteration_%d" % (h2, it2)
+    dg2 = keccak256(b"\x19Ethereum Signed Message:\n" + str(len(t2)).encode() + t2.encode())
+    o5 = os.path.join(tmpdir, "auth-eth.json")
+    if os.path.exists(o5):
+        os.unlink(o5)       # (left by an earlier case: it names another version)
+    for mode in rng.sample(["honest", "honest", "signs-with-another-key",
+                            "signs-without-the-prefix", "signs-another-text", "s-altered",
+                            "reports-another-key"], 3):
+        existed = rng.random() < 0.5 and os.path.exists(o5)
+        if not existed and os.path.exists(o5):
+            os.unlink(o5)
+        before = open(o5).read() if existed else None
+        app = EthApp(rng, mode)
+        with HidPatch(Bus(app, VirtualClock())):
+            code, so = run_main(signapp.main, ["signapp.py", "eth", "-o", o5, "-a", app2, "-i",
+                                               str(it2)])
+        acc.evaluations += 1
+        acc.count("eth_runs")
+        after = open(o5).read() if os.path.exists(o5) else None
+        if mode == "honest":
+            try:
+                sigs = json.loads(after)["signatures"]
+            except Exception:
+                sigs = []
+            if code != 0 or not sigs or app.signed != [t2.encode()] or \
+                    not verify_der(app.pub(app.key).hex(), bytes.fromhex(sigs[-1]), dg2):
+                bad("eth-run-with-an-honest-app-failed", code=code, out=so[-200:],
+                    signed=[m[:60].decode("latin1") for m in app.signed])
+                return
+            acc.count("eth_runs_with_an_honest_app")
+            continue
+        acc.count("eth_runs_with_a_dishonest_app")
+        if code == 0 or after != before:
+            bad("signature-from-the-app-stored-although-it-does-not-verify:%s" % mode,
+                code=code, file_changed=(after != before), out=so[-200:])
+            return
+
 
 def device_dialogues(acc, rng, out, app_hash, it, bad, do_authorize_signer):
     """the real authorize command against the simulated UI, for thresholds 1..n and
